@@ -105,7 +105,8 @@ int hex2bin(const char *in, size_t inlen, uint8_t *out)
 {
 	int c;
 	if (inlen % 2) {
-		error_print_msg("hex %s len = %zu\n", in, inlen);
+		// in is not necessarily NUL terminated, print at most inlen characters
+		error_print_msg("hex %.*s len = %zu\n", (int)(inlen > 80 ? 80 : inlen), in, inlen);
 		return -1;
 	}
 
